@@ -86,6 +86,9 @@ func (h Hist) ID() string {
 	if h.Mode == "runs" && h.AllOffsets {
 		s += "/all-offsets"
 	}
+	if h.Mode == "runs" && h.Profile == "large" && !h.AllOffsets {
+		s += "/boundaries"
+	}
 	if h.Parts > 1 {
 		s += fmt.Sprintf("/part%d", h.Part)
 	}
@@ -2048,7 +2051,13 @@ func plan(tier string) []Hist {
 		for _, x := range ncs {
 			hs = append(hs, Hist{Mode: "runs", Codec: cd, Profile: "small", Cap: x.cap, K: x.n, Sync: "each", AllOffsets: true}) // small images: every offset in both tiers
 		}
-		hs = append(hs, Hist{Mode: "runs", Codec: cd, Profile: "large", Cap: 2, K: 3, Sync: "each"}) // ~3 KiB records: sector/page/record boundaries only
+		if tier == "thorough" {
+			for pt := 0; pt < 8; pt++ { // ~3 KiB records, every offset
+				hs = append(hs, Hist{Mode: "runs", Codec: cd, Profile: "large", Cap: 2, K: 3, Sync: "each", AllOffsets: true, Part: pt, Parts: 8})
+			}
+		} else {
+			hs = append(hs, Hist{Mode: "runs", Codec: cd, Profile: "large", Cap: 2, K: 3, Sync: "each"}) // ~3 KiB records: sector/page/record boundaries only
+		}
 	}
 	// controller level (Cap = WAL segment size in bytes here)
 	hs = append(hs, Hist{Mode: "ctrl", Codec: "v2", Cap: 128, K: 4})
